@@ -844,6 +844,9 @@ Proof.
   - destruct (alloc_uuid_bounded hs hl body) as (o & -> & ? & ?). exists o. split; [reflexivity|]. split; lia.
   - destruct (alloc_ftyp_bounded hs hl body) as (o & -> & ? & ?). exists o. split; [reflexivity|]. split; lia.
   - destruct (alloc_styp_bounded p hs hl body) as (o & -> & ? & ?). exists o. split; [reflexivity|]. split; lia.
+  - destruct (alloc_hvcc_bounded p hs hl body) as (o & -> & ? & ?). exists o. split; [reflexivity|]. split; lia.
+  - destruct (alloc_avcc_bounded p hs hl body) as (o & -> & ? & ?). exists o. split; [reflexivity|]. split; lia.
+  - destruct (alloc_lou_bounded hs hl body) as (o & -> & ? & ?). exists o. split; [reflexivity|]. split; lia.
 Qed.
 
 Lemma lenN_skipn {A} n (l : list A) : lenN (skipn n l) <= lenN l.
